@@ -9,6 +9,7 @@ Go `cty.Type` always satisfies by construction (a Go map has distinct keys; the
 harness prints them sorted).
 -/
 import CtyModel.Lemmas.TyJsonRT
+import CtyModel.Lemmas.TyFnsTie
 namespace CtyModel
 namespace C07
 open Ty
@@ -75,6 +76,69 @@ theorem typeJSON_roundtrip (norm : String → String) (t : Ty) (hw : wf t = true
 /-- … and capsule types are refused by the encoder rather than mis-encoded. -/
 theorem typeJSON_capsule_rejected (i : Nat) : toJson (.capsule i) = .err "capsule" := rfl
 
+/-! ### The regenerated-model tie
+
+`Generated.TyFns.*` are NOT hand-written: `extract/translate.go` translates the bodies of `Type.Equals` (and
+the eight per-kind `Equals` methods), `testConformance`/`Type.TestConformance`, `Type.HasDynamicTypes` and
+`Type.WithoutOptionalAttributesDeep` from go-cty's source into Lean on every check.  The four `generated_*_eq`
+theorems say that what the source text computes (on the model's reading of a `cty.Type`) is what the
+hand-written model computes — with no panic and no exhausted recursion fuel — so every theorem above holds of
+the translated source; the `*_generated` corollaries state the property clauses directly about it.  A source
+edit that changes the meaning makes these proofs fail; an edit that leaves the translated fragment makes the
+extractor fail. -/
+
+/-- `Type.Equals` as written in the source is the model's `equals` (in particular: it does not panic on the
+tuple index, and exchanging receiver and argument at every level, as the Go methods do, changes nothing). -/
+theorem generated_equals_eq (a b : Ty) (ha : wf a = true) (hb : wf b = true) :
+    Generated.TyFns.equals a b = .ok (equals a b) := TyFnsTie.equals_eq a b ha hb
+
+/-- the number of errors `TestConformance` appends, as written in the source, is the model's count -/
+theorem generated_conformErrs_eq (c t : Ty) (hc : wf c = true) (ht : wf t = true) :
+    Generated.TyFns.conformErrs c t = .ok (conformErrs c t) := TyFnsTie.conformErrs_eq c t hc ht
+
+/-- `HasDynamicTypes` as written in the source is the model's `hasDyn` (its `default: panic` arm is dead) -/
+theorem generated_hasDynamicTypes_eq (t : Ty) : Generated.TyFns.hasDynamicTypes t = .ok (hasDyn t) :=
+  TyFnsTie.hasDynamicTypes_eq t
+
+/-- `WithoutOptionalAttributesDeep` as written in the source is the model's `stripOpt`: rebuilding the
+attribute map key by key and the element slice index by index gives back the same keys/positions, every slot
+of the fresh slice is assigned, the `default: panic` arm is dead -/
+theorem generated_withoutOptionalAttributesDeep_eq (t : Ty) (ht : wf t = true) :
+    Generated.TyFns.withoutOptionalAttributesDeep t = .ok (stripOpt t) :=
+  TyFnsTie.withoutOptionalAttributesDeep_eq t ht
+
+/-- equality clause, about the translated source -/
+theorem equals_iff_eq_generated (a b : Ty) (ha : wf a = true) (hb : wf b = true) :
+    Generated.TyFns.equals a b = .ok true ↔ a = b := by
+  rw [generated_equals_eq a b ha hb, ← equals_iff_eq a b ha hb]
+  exact ⟨fun h => by injection h, fun h => by rw [h]⟩
+
+theorem equals_symm_generated (a b : Ty) (ha : wf a = true) (hb : wf b = true) :
+    Generated.TyFns.equals a b = Generated.TyFns.equals b a := by
+  rw [generated_equals_eq a b ha hb, generated_equals_eq b a hb ha, equals_symm a b ha hb]
+
+/-- conformance clause, about the translated source: no error is reported exactly when … -/
+theorem conform_iff_generated (c t : Ty) (hc : wf c = true) (ht : wf t = true) :
+    Generated.TyFns.conformErrs c t = .ok 0 ↔ stripOpt (fill c t) = stripOpt t := by
+  rw [generated_conformErrs_eq c t hc ht, ← conform_iff c t hc ht]
+  exact ⟨fun h => by injection h, fun h => by rw [h]⟩
+
+/-- … and otherwise at least one error is reported (never a panic) -/
+theorem conform_errs_nonempty_generated (c t : Ty) (hc : wf c = true) (ht : wf t = true)
+    (h : stripOpt (fill c t) ≠ stripOpt t) : ∃ n, Generated.TyFns.conformErrs c t = .ok n ∧ 0 < n :=
+  ⟨_, generated_conformErrs_eq c t hc ht, conform_errs_nonempty c t hc ht h⟩
+
+theorem hasDyn_iff_occurs_generated (t : Ty) : Generated.TyFns.hasDynamicTypes t = .ok true ↔ Occurs t := by
+  rw [generated_hasDynamicTypes_eq t, ← hasDyn_iff_occurs t]
+  exact ⟨fun h => by injection h, fun h => by rw [h]⟩
+
+/-- stripping, about the translated source: the result carries no annotation and stripping it again returns it -/
+theorem stripOpt_idem_generated (t : Ty) (ht : wf t = true) :
+    ∃ u, Generated.TyFns.withoutOptionalAttributesDeep t = .ok u ∧ hasOpt u = false ∧
+      Generated.TyFns.withoutOptionalAttributesDeep u = .ok u :=
+  ⟨stripOpt t, generated_withoutOptionalAttributesDeep_eq t ht, stripOpt_removes_all t, by
+    rw [generated_withoutOptionalAttributesDeep_eq _ (TyFnsTie.stripOpt_wf t ht), stripOpt_idem]⟩
+
 /-! Non-vacuity: a non-trivial type meets every hypothesis used above. -/
 def sample : Ty :=
   .object ["a", "b"] [.list .dyn, .tuple [.string, .object ["k"] [.number] [true]]] [false, true]
@@ -84,6 +148,10 @@ example : wf sample = true ∧ hasCapsule sample = false ∧ namesFixed id sampl
 example : conformErrs (.object ["a", "b"] [.dyn, .tuple [.string, .dyn]] [true, false]) sample = 0 := by
   decide
 example : 0 < conformErrs (.object ["a"] [.dyn] [false]) sample := by decide
+example : Generated.TyFns.equals sample sample = .ok true ∧
+    Generated.TyFns.conformErrs (.object ["a"] [.dyn] [false]) sample = .ok 1 ∧
+    Generated.TyFns.hasDynamicTypes sample = .ok true ∧
+    (Generated.TyFns.withoutOptionalAttributesDeep sample).isOk = true := by decide
 
 end C07
 end CtyModel
